@@ -166,6 +166,68 @@ Theorem C41_no_new_task_after_stop :
 Proof. exact no_get_after_stop. Qed.
 Print Assumptions C41_no_new_task_after_stop.
 
+(* ---- the stop flag is INPUT state of the loop: stop before entry, stop at any position ---- *)
+(* run_pre iv b sched = the loop entered with the handle's flag = b (Model/Enrich.v `init`): entry
+   does not touch the flag.  Nobody clears it afterwards: no worker step and no foreground call
+   (the caller has no "un-stop"), from ANY state: *)
+Theorem C41_stop_flag_is_never_cleared :
+  forall (iv : N) (sched : list sitem) (x : est * wst),
+    e_stop (fst x) = true -> e_stop (fst (run_from iv x sched)) = true.
+Proof. exact stop_sticky. Qed.
+Print Assumptions C41_stop_flag_is_never_cleared.
+
+(* stop requested BEFORE run_worker_loop is entered (handle.stop() before the thread is spawned, or
+   before its first instruction): for EVERY schedule the worker processes nothing, reports no
+   error, and its first step -- if it is given one -- is the exit *)
+Theorem C41_prestopped_loop_does_nothing :
+  forall (iv : N) (sched : list sitem),
+    let x := run_pre iv true sched in
+    w_nproc (snd x) = 0 /\ w_nerr (snd x) = 0 /\ ((1 <= countW sched)%nat -> w_pc (snd x) = WStopped).
+Proof. exact prestopped_never_works. Qed.
+Print Assumptions C41_prestopped_loop_does_nothing.
+
+(* stop requested at ANY position of ANY schedule (pre = everything before the request, including
+   nothing at all; post = everything after, including further puts, commits, drains and further
+   stop requests), whatever flag the loop was entered with: the flag stays set; the worker
+   processes at most the one task it was holding when the request came -- none if it was at the top
+   of the loop, where its very next step is the exit; and in every case it has left the loop once
+   it has been given four steps (the rest of the iteration in progress -- process, complete,
+   checkpoint -- and the exit) *)
+Theorem C41_stop_at_any_time :
+  forall (iv : N) (b : bool) (pre post : list sitem),
+    let x := run_pre iv b pre in
+    let y := run_pre iv b (pre ++ SF FStop :: post) in
+    e_stop (fst y) = true /\
+    ((4 <= countW post)%nat -> w_pc (snd y) = WStopped) /\
+    w_nproc (snd y) <= w_nproc (snd x) + owed (w_pc (snd x)) /\
+    (w_pc (snd x) = WTop -> (1 <= countW post)%nat -> w_pc (snd y) = WStopped /\ w_nproc (snd y) <= w_nproc (snd x)).
+Proof. exact stop_at_any_time. Qed.
+Print Assumptions C41_stop_at_any_time.
+
+(* (1) holds from either entry flag *)
+Theorem C41_frame_table_any_entry_flag_partial :
+  forall (iv : N) (b : bool) (sched : list sitem),
+    let e := fst (run_pre iv b sched) in
+    run_ok [] (e_hist e) = true ->
+    view (e_st e) = ref_run [] (e_hist e) /\ (pending (e_st e) = [] -> committed (e_st e) = ref_run [] (e_hist e)).
+Proof. exact frame_table_any_entry_flag. Qed.
+Print Assumptions C41_frame_table_any_entry_flag_partial.
+
+(* non-vacuity: a pre-stopped loop facing two committed queued documents and as many steps as it
+   likes; and a stop landing between get and process (one task still processed), followed by more
+   queued puts that are never touched, and a second stop *)
+Example C41_prestopped_nonvacuous :
+  let x := run_pre 1 true [SF (FPut None 1000 0 None true); SF (FCommit 1); SW 0; SW 0; SF (FPut None 2000 0 None true); SF (FCommit 1); SW 0; SW 0] in
+  e_queue (fst x) = [0; 1] /\ map (state_of (fst x)) [0; 1] = [0; 0] /\ w_nproc (snd x) = 0 /\ w_pc (snd x) = WStopped /\ e_plog (fst x) = [].
+Proof. vm_compute. repeat split. Qed.
+Example C41_stop_mid_iteration_nonvacuous :
+  let pre := [SF (FPut None 1000 0 None true); SF (FPut None 2000 0 None true); SF (FCommit 1); SW 0] in
+  let post := [SW 0; SF (FPut None 3000 0 None true); SF (FCommit 1); SW 0; SF FStop; SW 1; SW 0; SW 0] in
+  w_pc (snd (run_pre 1 false pre)) = WHasTask 0 /\
+  let y := run_pre 1 false (pre ++ SF FStop :: post) in
+  w_pc (snd y) = WStopped /\ w_nproc (snd y) = 1 /\ e_queue (fst y) = [1; 2] /\ map (state_of (fst y)) [0; 1; 2] = [1; 0; 0].
+Proof. vm_compute. repeat split. Qed.
+
 (* ============ (7) the queue drains: c = 4 ============ *)
 (* from ANY state with the worker running and not asked to stop, with k tasks queued and the
    foreground silent, 4k+3 worker steps (4 per task: get, process, complete, checkpoint; 3 for the
